@@ -367,6 +367,7 @@ verus_unit(
     obligations={
         "decode_symbol": dict(own=["C10", "C02", "C06", "C20"], dep=["C07", "C11"], kani_twin="range::u8_u16_p3::dec_step",
                               text="ensures: InvalidData iff quantile >= 2^P (state untouched); else Ok(model symbol of the quantile), invariants point-lower<range and range>=2^(sb-wb) re-established, state follows the interval step; all P"),
+        "thm_decode_is_dec_step": dict(own=["C02", "C06"], dep=[], text="layer B = layer A: the decoder postcondition is dec_quantile / dec_step of the interval model (to which lemma_coupling and lemma_message_roundtrip apply)"),
     },
 )
 kani("bits::stack_pop_then_push", ["C16", "C18"], fns=[S + "StackCoder::read_bit", S + "StackCoder::write_bit", S + "StackCoder::into_compressed"],
